@@ -161,6 +161,50 @@ def only_closers_inserted(src, out, names=()):
         far[0], src[far[0]:far[0] + 10], far[1], out[far[1]:far[1] + 10])
 
 
+def has_bare_sig_arg(src):
+    """token-level version of the same side condition, which also sees
+    fixed-signature commands inside an environment name (where the tree only
+    keeps a string): some \\def/\\textbf/\\section/\\label is not followed by
+    its brace-delimited mandatory arguments"""
+    try:
+        from TexSoup.reader import SIGNATURES
+        toks = impl.tokens_of(src)
+    except Exception:      # noqa
+        return False
+    n = len(toks)
+
+    def skip_group(j, open_cat, close_cat):
+        depth, k = 1, j + 1
+        while k < n and depth > 0:
+            if toks[k][2] == open_cat:
+                depth += 1
+            elif toks[k][2] == close_cat:
+                depth -= 1
+            k += 1
+        return k
+    for i in range(n - 1):
+        if toks[i][2] != 'Escape' or toks[i + 1][0] not in SIGNATURES:
+            continue
+        req, opt = SIGNATURES[toks[i + 1][0]]
+        if req <= 0:
+            continue
+        j = i + 2
+        while opt != 0:
+            k = j + 1 if j < n and toks[j][2] == 'MergedSpacer' else j
+            if k < n and toks[k][2] == 'BracketBegin':
+                j = skip_group(k, 'BracketBegin', 'BracketEnd')
+                opt -= 1
+            else:
+                break
+        for _ in range(req):
+            k = j + 1 if j < n and toks[j][2] == 'MergedSpacer' else j
+            if k < n and toks[k][2] == 'GroupBegin':
+                j = skip_group(k, 'GroupBegin', 'GroupEnd')
+            else:
+                return True
+    return False
+
+
 def sig_args_braced(soup):
     """Side condition of C08/C16: no fixed-signature command took a bare
     token as a mandatory argument (such arguments get braces on output)."""
@@ -364,7 +408,7 @@ def _c07_chunk(cases):
                                str(s1), str(s0)))
         if s1 is not None:
             r.count('tolerant-ok')
-            if '\x00' in src or '\x7f' in src or not sig_args_braced(s1):
+            if '\x00' in src or '\x7f' in src or not sig_args_braced(s1) or has_bare_sig_arg(src):
                 r.count('skipped:side-condition')
                 continue
             d = only_closers_inserted(src, str(s1), env_names(s1))
@@ -478,7 +522,7 @@ def _c08_chunk(cases):
         if soup is None:
             r.count('skipped:' + err)
             continue
-        if not sig_args_braced(soup):
+        if not sig_args_braced(soup) or has_bare_sig_arg(src):
             r.count('skipped:bare-token-argument')
             continue
         out = str(soup)
@@ -526,7 +570,7 @@ def _c16_chunk(cases):
         if soup is None:
             r.count('skipped:' + err)
             continue
-        if not sig_args_braced(soup):
+        if not sig_args_braced(soup) or has_bare_sig_arg(src):
             r.count('skipped:bare-token-argument')
             continue
         if re.search(r'\\(left|right|big|Big|bigg|Bigg)(?![a-zA-Z(<>\[\]{}.|)\\])', src) or \
